@@ -379,6 +379,34 @@ theorem get_degrees_spec (c : Csr Rat) :
     getDegrees c false = tab c.nRow (fun i => (c.row i).length) ∧
     getDegrees c true = tab c.nCol (fun j => (transposedRow c j).length) := getDegrees_spec c
 
+/-- scipy's invariant of a constructed CSR matrix (`Csr.WF`) implies the hypothesis `InRange` of `get_weights_spec` -/
+theorem wf_in_range (c : Csr Rat) (h : c.WF = true) : InRange c := inRange_of_wf c h
+
+/-- **get_neighbors / get_degrees against the dense matrix**, for a CSR matrix in canonical format without explicit
+zeros (`Canonical`: strictly increasing columns in every row, no stored zero): the neighbours of a node are exactly
+the columns of the non-zero entries of its row (of its column with `transpose=True`), in increasing order, and the
+degrees count them -/
+theorem get_neighbors_dense (c : Csr Rat) (hr : InRange c) (hc : Canonical c) :
+    (∀ node, node < c.nRow → NeighborsSpec (csrDense c) node ((c.row node).map (·.1)) = true) ∧
+    (∀ node, node < c.nCol →
+      NeighborsSpec (csrDense c).transpose node (((csrTranspose c).row node).map (·.1)) = true) :=
+  ⟨fun node hn => neighborsSpec_model c hr hc node hn, fun node hn => neighborsSpec_transpose_model c hc node hn⟩
+
+theorem get_degrees_dense (c : Csr Rat) (hr : InRange c) (hc : Canonical c) :
+    DegreesSpec (csrDense c) (getDegrees c false) = true ∧
+    DegreesSpec (csrDense c).transpose (getDegrees c true) = true :=
+  ⟨degreesSpec_model c hr hc, degreesSpec_transpose_model c hc⟩
+
+/-- a canonical matrix: `[[0, 2, 0], [1, 0, 3]]` -/
+example : ∀ i, i < 2 → (((⟨2, 3, #[0, 1, 3], #[1, 0, 2], #[2, 1, 3]⟩ : Csr Rat).row i).map (·.1)).Pairwise (· < ·) := by
+  decide +kernel
+
+/-- the remaining Boolean specifications of the driver hold of the model's outputs -/
+theorem spec_lines_hold_of_model_2 (tol : Rat) (ht : 0 ≤ tol) (a l : Mat) (h : getLaplacian a = .ok l)
+    (labels : List Int) (m : Int) :
+    LaplacianSpec tol a l = true ∧ MembershipSpec labels (csrDense (membershipCsr labels m)) = true :=
+  ⟨laplacianSpec_model tol ht a l h, membershipSpec_model labels m⟩
+
 /-! ## ★ topk_spec -/
 
 /-- **topk_spec**: `top_k(scores, k, sort)` returns `min(k, n)` distinct valid indices such that no left-out score
